@@ -241,9 +241,16 @@ func c07MidOne(r *ev.Run, dir string, base []byte, w *Peer, op c07MidOp, grown, 
 	started := time.Now()
 	for {
 		var x ev1
-		select {
-		case x = <-yield:
-		case <-time.After(2 * time.Minute):
+		got1 := false
+		// two minutes, granted in slices of a second (a stopped machine or a stepping clock uses up one slice)
+		for slice := 0; slice < 120 && !got1; slice++ {
+			select {
+			case x = <-yield:
+				got1 = true
+			case <-time.After(time.Second):
+			}
+		}
+		if !got1 {
 			r.Violation("C07:mid-read:hang", fmt.Sprintf("%s: no row and no return for 2 minutes (started %v ago)", op.name, time.Since(started)), art)
 			return
 		}
